@@ -121,6 +121,10 @@ Arch(d, n) ==
        IF e # <<>> THEN [e[1] EXCEPT !.alts = UNION {subs0[i].alts : i \in {j \in 1..Len(subs0) : IsErr(subs0[j])}}]
        ELSE LET par == IF m.inherit = "" THEN Ok([node |-> EmptyNode, gen |-> <<>>]) ELSE Arch(d, m.inherit) IN
             IF IsErr(par) THEN par
+            ELSE IF par.v.gen # <<>> THEN Err("invalid_typ_statement")       \* a generic module cannot be inherited from
+            (* inherited names must not be declared again (an identical gate declaration is harmless) *)
+            ELSE IF \E g \in SeqSet(m.gates), h \in par.v.node.gates : g.id = h.id /\ g # h THEN Err("symbol_already_defined")
+            ELSE IF \E i \in 1..Len(subs0), j \in 1..Len(par.v.node.subs) : subs0[i].v.name.id = par.v.node.subs[j].name.id THEN Err("symbol_already_defined")
             ELSE LET gates == SeqSet(m.gates) \cup par.v.node.gates
                      subs == Vals(subs0) \o par.v.node.subs
                      cs == [i \in 1..Len(m.conns) |-> ConnOf(m.conns[i], subs, gates, d.links)]
@@ -131,7 +135,9 @@ Arch(d, n) ==
 (* the set of error classes the description exhibits (several if several modules are faulty) *)
 ErrorsOf(d) == IF ~Resolvable(d) THEN {"unresolvable_dependency"}
                ELSE LET es == UNION {Arch(d, n).alts : n \in {x \in Names(d) : IsErr(Arch(d, x))}} IN
-                    IF es # {} THEN es ELSE IF d.entry \notin Names(d) THEN {"unknown_module"} ELSE {}
+                    IF es # {} THEN es ELSE IF d.entry \notin Names(d) THEN {"unknown_module"}
+                    ELSE IF Arch(d, d.entry).v.gen # <<>> THEN {"invalid_typ_statement"}      \* the entry module cannot be generic
+                    ELSE {}
 
 -----------------------------------------------------------------------------
 (* flattening an elaborated node into module paths / gates / connections *)
